@@ -380,7 +380,7 @@ def main():
         run.run_shards("rv.props.c13", timeout=3400)
         return run.finish(require=("layouts", "deliveries_checked", "complete_distributions", "life_cycles", "probes_must", "probes_must_not", "fdt_reads"))
     rng = run.rng("c13")
-    n = (8000 if thorough else 600) // (run.shard[1] if thorough else 1) + 1
+    n = (80000 if thorough else 600) // (run.shard[1] if thorough else 1) + 1
     for i in range(n):
         wf = rng.random() < 0.6
         run.case(("layout", run.shard[0], i), sample={"kind": "layout", "well_formed": wf}, sample_key=("layout", wf))
@@ -389,7 +389,7 @@ def main():
     k = 0
     for ttl in ttls:
         for scenario in ("death", "delete", "unregister"):
-            for rep in range(6 if thorough else 3):
+            for rep in range(32 if thorough else 3):
                 k += 1
                 if thorough and not run.mine(k):
                     continue
